@@ -164,6 +164,14 @@ class PathProv:
                             out |= self._classify_container_source(o.term, depth + 1)
                             n_ins += 1
                             ok = True
+                        elif o.kind == "agg" and o.stmt is not None and o.stmt.rv.get("k") == "agg" and o.stmt.rv.get("ak") in ("array", "tuple") and depth < 6:
+                            # iterating an array literal: its elements are the items
+                            pos = [(bl.idx, i2) for bl in o.body.blocks for i2, st in enumerate(bl.stmts) if st is o.stmt]
+                            if pos:
+                                for op in o.stmt.rv_operands():
+                                    out |= self.classify_path_origins(self.tracer.origins_of_operand(o.body, pos[0][0], pos[0][1], op), depth + 1)
+                                n_ins += 1
+                                ok = True
                 if not ok:
                     out.add(("unknown", "container assigned by statement"))
         if n_ins == 0:
@@ -180,6 +188,18 @@ class PathProv:
             for o in self.tracer.origins_of_arg(t, 0):
                 if o.kind == "call":
                     res |= self._classify_container_source(o.term, depth + 1)
+                elif o.kind == "agg" and o.stmt is not None and o.stmt.rv.get("k") == "agg" and depth < 6:
+                    # an array / tuple literal: its elements are the items
+                    bd = o.body
+                    pos = [(bl.idx, i) for bl in bd.blocks for i, st in enumerate(bl.stmts) if st is o.stmt]
+                    if not pos:
+                        res.add(("unknown", "iterator source %r" % o))
+                        continue
+                    for op in o.stmt.rv_operands():
+                        if op.is_const:
+                            res |= self.classify_path_origins(self.tracer.origins_of_operand(bd, pos[0][0], pos[0][1], op), depth + 1)
+                        elif op.place is not None:
+                            res |= self.classify_path_origins(self.tracer.origins_of_operand(bd, pos[0][0], pos[0][1], op), depth + 1)
                 else:
                     res.add(("unknown", "iterator source %r" % o))
             return res
